@@ -1,11 +1,12 @@
-use super::diagnostic::invalid_prebuilt_type;
+use super::diagnostic::{annotation_kind_mismatch, invalid_prebuilt_type};
 use crate::compiler::analyses::prebuilt_types::PrebuiltTypeDb;
 use crate::{
     DiagnosticSink,
     compiler::analyses::computations::ComputationDb,
+    diagnostic::ComponentKind,
     rustdoc::{CrateCollection, CrateCollectionExt},
 };
-use pavexc_attr_parser::AnnotationProperties;
+use pavexc_attr_parser::{AnnotationKind, AnnotationProperties};
 
 use super::{
     AuxiliaryData, ConfigType, ImplInfo, annotated_item2type, callable_resolution_error,
@@ -65,6 +66,23 @@ pub(crate) fn resolve_annotation_coordinates(
                 continue;
             }
         };
+
+        // The annotation must describe a component of the same kind as the one that was
+        // registered against the blueprint.
+        // They can disagree if, for example, two components in the same package share the
+        // same id (an error that is reported when that package is indexed): the coordinates
+        // may then resolve to "the other" component.
+        let registered_kind = aux.component_interner[component_id].kind();
+        if annotation_kind2component_kind(annotation.properties.kind()) != Some(registered_kind) {
+            annotation_kind_mismatch(
+                coordinates,
+                annotation.properties.kind(),
+                component_id,
+                aux,
+                diagnostics,
+            );
+            continue;
+        }
 
         let item = krate.get_item_by_local_type_id(&annotation.id);
 
@@ -276,6 +294,24 @@ pub(crate) fn resolve_annotation_coordinates(
             }
         };
         computation_db.get_or_intern_with_id(callable, component_id.into());
+    }
+}
+
+/// The kind of component that an annotation of the given kind gives rise to, if any.
+fn annotation_kind2component_kind(kind: AnnotationKind) -> Option<ComponentKind> {
+    match kind {
+        AnnotationKind::Constructor => Some(ComponentKind::Constructor),
+        AnnotationKind::Config => Some(ComponentKind::ConfigType),
+        AnnotationKind::Prebuilt => Some(ComponentKind::PrebuiltType),
+        AnnotationKind::WrappingMiddleware => Some(ComponentKind::WrappingMiddleware),
+        AnnotationKind::PreProcessingMiddleware => Some(ComponentKind::PreProcessingMiddleware),
+        AnnotationKind::PostProcessingMiddleware => Some(ComponentKind::PostProcessingMiddleware),
+        AnnotationKind::ErrorObserver => Some(ComponentKind::ErrorObserver),
+        AnnotationKind::ErrorHandler => Some(ComponentKind::ErrorHandler),
+        AnnotationKind::Route => Some(ComponentKind::RequestHandler),
+        AnnotationKind::Fallback => Some(ComponentKind::Fallback),
+        // `#[pavex::methods]` marks an `impl` block, it doesn't define a component.
+        AnnotationKind::Methods => None,
     }
 }
 
